@@ -493,7 +493,7 @@ int Model::b_do_process_event(int mi, const MEv& e, bool direct) {
     for (size_t r = 0; r < I.active.size(); ++r) handled |= b_region(mi, (int)r, e);   // C06: every region once, in order
     // sm-internal table: only if the regions did not consume the event (C01)
     bool processable = false;
-    for (int rid : M(mi).irows) if (d_->rows[rid].trigger == e.ev) processable = true;
+    for (int rid : M(mi).irows) if (matches(d_->rows[rid].trigger, e.ev)) processable = true;   // C18: exact, base class or Kleene (fix F-V)
     if (processable && !(handled & (R_TRUE | R_DEFERRED))) {
         int res = R_FALSE;
         bool any_reject = false;
